@@ -14,14 +14,18 @@ from props.base import nontrivial, corpus_for  # noqa: F401
 ID = 'C15'
 LEAN_MODULES = ['PybtexModel.Props.C15']
 THEOREMS = {
-    'C15_strip_comment': 'strip_comment removes exactly the text from the first % outside a string literal (a % preceded by an odd number of " is kept), for every line',
-    'C15_strip_comment_id': 'strip_comment is the identity on lines without a comment and is idempotent',
+    'C15_strip_comment': 'strip_comment removes exactly the text from the first % outside a string literal (a % preceded by an odd number of " is kept), for every line; equals the declarative spec',
+    'C15_strip_comment_id': 'strip_comment is the identity on lines without % and is idempotent',
     'C15_roundtrip': 'printing any well-formed program with ANY lay-out and parsing it back (parse_string) is the identity',
+    'C15_roundtrip_nonvacuous': 'a concrete nested program under a concrete lay-out with comments, CRLF, VT: well-formed, printed text as expected, parses back (kernel evaluation)',
     'C15_layout_independent': 'two lay-outs of one program parse to the same value (white space, line breaks, comments, brace spacing)',
     'C15_command_case': 'command names are looked up case-insensitively and returned as written',
-    'C15_malformed_located': 'unknown command, stray brace, missing group, unterminated group or string after a well-formed prefix: syntax error on the line of the offending lexeme',
-    'C15_entry_points_agree': 'parse_string / parse_stream / parse_file hand the same text to the parser when the source has no exotic line separators and no trailing white space; they always agree on printed programs',
-    'C15_fuel_adequate': 'the fuel-indexed loops of the model never run out of fuel (parse_group / parse consume at least one character per turn)',
+    'C15_malformed_located': 'well-formed program + offence under ANY lay-out: non-command where a command is due / non-{ where a group is due / text ends with groups due / group never closed => syntax error on the line of the offending lexeme (resp. last line)',
+    'C15_malformed_located_nonvacuous': 'concrete instances of the four cases, offence on line 3, and the reference reading names the same lexeme (kernel evaluation)',
+    'C15_unterminated_string_partial': 'parser level: a quote with no closing quote after it inside a group => "name or string or ..." expected on the line the scanner is on',
+    'C15_fuel_adequate': 'the fuel-indexed loops of the model never run out of fuel; entry points never return model-only outcomes',
+    'C15_entry_points_agree_partial': 'plain line breaks: parse_stream text = parse_string text with lines rstripped; with no trailing white space parse_string / parse_stream / parse_file agree',
+    'C15_entry_points_agree_neg': 'witness: a string literal spanning a line break with a blank before the break is read differently by parse_string and parse_stream',
 }
 RULE = ('exhaustive: FUNCTION bodies of <=3 tokens over every token kind (names of operator characters, quoted names, negative '
         'integers, strings containing % # { }) with function literals nested <=2, all commands x 3 spellings singly and in pairs, '
@@ -516,8 +520,11 @@ RAW_ALPHABET = ['{', '}', '"', '#', '%', "'", '-', '0', '1', '9', 'a', 'B', ' ',
                 'FUNCTION', 'ENTRY ', 'iterate{x}', '{a}', '#1', '#-2', '"s"', '\x0b', '\x85', ' ', ' \n', '\r\n', '%c\n', '+', 'x$']
 
 
+RAW_PREFIX = ['', '', 'FUNCTION {f} {', 'ENTRY {a}', 'MACRO {', 'read\n', 'INTEGERS', 'FUNCTION {f}\n{ "a', 'SORT %c\n', 'EXECUTE {x} ']
+
+
 def rand_raw(rng):
-    return ''.join(rng.choice(RAW_ALPHABET) for _ in range(rng.randint(0, 14)))
+    return rng.choice(RAW_PREFIX) + ''.join(rng.choice(RAW_ALPHABET) for _ in range(rng.randint(0, 14)))
 
 
 def rand_line(rng):
